@@ -429,9 +429,67 @@ def gen_preamble(tr, pre_stmts):
     return defs, names
 
 
+TYPES = {
+    'Pattern': ('#[derive(Debug, Eq, PartialEq, Clone)]',
+                'pub enum Pattern { EVar(Id), SVar(Id), Symbol(Id), Implies { left: Rc<Pattern>, right: Rc<Pattern> }, '
+                'App { left: Rc<Pattern>, right: Rc<Pattern> }, Exists { var: Id, subpattern: Rc<Pattern> }, '
+                'Mu { var: Id, subpattern: Rc<Pattern> }, MetaVar { id: Id, e_fresh: IdList, s_fresh: IdList, positive: IdList, '
+                'negative: IdList, app_ctx_holes: IdList }, ESubst { pattern: Rc<Pattern>, evar_id: Id, plug: Rc<Pattern> }, '
+                'SSubst { pattern: Rc<Pattern>, svar_id: Id, plug: Rc<Pattern> } }'),
+    'Term': ('#[derive(Debug, Eq, PartialEq, Clone)]', 'pub enum Term { Pattern(Rc<Pattern>), Proved(Rc<Pattern>) }'),
+    'Entry': ('#[derive(Debug, Eq, PartialEq)]', 'pub enum Entry { Pattern(Rc<Pattern>), Proved(Rc<Pattern>) }'),
+}
+ALIASES = ['type Id = u8;', 'type IdList = Vec<Id>;', 'type InstByte = u8;', 'type Stack = Vec<Term>;', 'type Claims = Vec<Rc<Pattern>>;',
+           'type Memory = Vec<Entry>;']
+
+
+def check_types(src):
+    """the data types the model's [pat], [term] mirror, and the DERIVED structural equality that `!=` / `==` on patterns means
+    (the model's [pat_eqb] compares every field incl. all five constraint lists): a hand-written PartialEq would change ModusPonens and Publish"""
+    for name, (derive, want) in TYPES.items():
+        m = re.search(r'((?:#\[[^\]]*\]\s*)*)pub enum ' + name + r' \{', src)
+        if not m:
+            fail(f'enum {name} not found')
+        attrs = ' '.join(m.group(1).split())
+        if derive not in attrs:
+            fail(f'enum {name}: equality is not the derived structural one (attributes: {attrs})')
+        i = src.index('{', m.end() - 1)
+        got = norm(src[m.start() + len(m.group(1)):match_close(src, i) + 1])
+        if got != want:
+            fail(f'enum {name} differs from the modelled data type: {got[:200]}')
+    for a in ALIASES:
+        if a not in src:
+            fail('type alias missing or changed: ' + a)
+    for bad in (r'impl\s+(?:core::cmp::)?PartialEq(?:<[^>]*>)?\s+for\s+(Pattern|Term|Entry)', r'impl\s+(?:core::cmp::)?Eq\s+for\s+(Pattern|Term|Entry)',
+                r'impl\s+(?:core::ops::)?(?:Deref|Drop)\s+for\s+(Pattern|Term|Entry)'):
+        m = re.search(bad, src)
+        if m:
+            fail('hand-written trait implementation changes the meaning of the translated operators: ' + m.group(0))
+
+
+MAIN_RS = ('#![deny(warnings)] use checker::verify; use std::fs; pub fn main() { let (gamma_reader, claims_reader, proof_reader) = '
+           'match std::env::args().len() { 3 => (fs::read(std::env::args().nth(1).unwrap()).unwrap(), fs::read("").unwrap(), '
+           'fs::read(std::env::args().nth(2).unwrap()).unwrap()), 4 => (fs::read(std::env::args().nth(1).unwrap()).unwrap(), '
+           'fs::read(std::env::args().nth(2).unwrap()).unwrap(), fs::read(std::env::args().nth(3).unwrap()).unwrap()), _ => panic!("") }; '
+           'verify(&gamma_reader, &claims_reader, &proof_reader); }')
+
+
+def check_main(repo):
+    """rust/src/main.rs (whole-file template): two arguments = gamma + proof with an EMPTY claim file ("/dev/null"), three = gamma claims proof,
+    anything else or an unreadable file panics; the verdict is verify()'s (panic = non-zero exit status)"""
+    raw = open(os.path.join(repo, 'rust/src/main.rs')).read()
+    if 'fs::read("/dev/null")' not in raw:
+        fail('main.rs: the claim file of the two-argument form is not /dev/null')
+    got = norm(raw)
+    if got != MAIN_RS:
+        fail('main.rs differs from the modelled driver: ' + got[:300])
+
+
 def generate(repo):
+    check_main(repo)
     src = open(os.path.join(repo, 'rust/src/lib.rs')).read()
     src = src.split('\n#[cfg(test)]\nmod tests')[0]
+    check_types(strip_strings(src))
     for name, want in HELPERS.items():
         got = norm(find_fn(src, name))
         if got != want:
